@@ -384,3 +384,12 @@ Theorem C01_code_blank_reference_and_proxy :
   calls_proxyFetchCached = [b "p.Cache.Exists"; b "p.Cache.Fetch"; b "p.ReadOnlyStorage.Fetch"].
 Proof. exact (conj rule_blank_dstref order_proxy). Qed.
 Print Assumptions C01_code_blank_reference_and_proxy.
+
+(* WithTargetPlatform on an image-manifest root (compared with the implementation on every such case):
+   the root is kept iff its config has the image-config media type and the platform decoded from the
+   config blob matches; anything that is neither a manifest list nor an image manifest is refused *)
+Theorem C01_platform_on_image :
+  forall r ok p want x,
+    select_target r (PVImage ok p) want = Some x <-> x = r /\ ok = true /\ plat_match p want = true.
+Proof. exact select_target_image. Qed.
+Print Assumptions C01_platform_on_image.
